@@ -37,6 +37,9 @@ def mismatch(got, want, rtol=None):
         return ("malformed", f"result polynomial is malformed: {err}")
     except NotNumeric as err:
         return ("type", f"result is raw storage, not a polynomial: {err}")
+    except Exception as err:  # pylint: disable=broad-except
+        # reading exponents / coefficients of the returned object failed
+        return ("malformed", f"result cannot be read: {type(err).__name__}: {err}")
     want = M.wrap(want)
     if tuple(have.shape) != tuple(want.shape):
         return ("shape", f"result shape {tuple(have.shape)} != expected {tuple(want.shape)}")
